@@ -7,7 +7,8 @@
 //! tiers, adaptive fee tiers, pools, oracles, config extensions, token badges of each), assigns accounts to
 //! the slots of the instruction by slot name, applies one VARIATION (0 = everything right, 1 = authority
 //! does not sign, 2 = a stranger signs, 3 = the other config with ITS authority but this config's target
-//! account / another role's authority, 4 = value out of bounds, 5 = target account of the other config),
+//! account / another role's authority, 4 = value out of bounds, 5 = target account of the other config,
+//! 6 = a SIBLING adaptive fee tier of the same config and spacing under another index, its authority signing),
 //! executes the instruction, and reports `ok` / `err`.
 //!   * the op line carries the ENVIRONMENT (per slot: key as a small integer, signer flag; per checked
 //!     attribute in source order: the value read from the real account data), so the Lean model answers
@@ -202,6 +203,24 @@ fn world() -> Bank {
         let badge = TokenBadge { whirlpools_config: k(0xC0, c), token_mint: k(0xC6, 1), attribute_require_non_transferable_position: false };
         b.set(k(0xC7, c), pid, 10_000_000, ser(&badge, TokenBadge::LEN));
     }
+    // a SIBLING adaptive fee tier of config 1: same spacing, another index, the stranger as its authorities
+    // (seed C04_7: a pool-level setting must be tied to the pool's OWN tier, not to any tier of its spacing)
+    let sib = AdaptiveFeeTier {
+        whirlpools_config: k(0xC0, 1),
+        fee_tier_index: ATIER_INDEX + 1,
+        tick_spacing: TS,
+        initialize_pool_authority: stranger(),
+        delegated_fee_authority: stranger(),
+        default_base_fee_rate: 3000,
+        filter_period: 30,
+        decay_period: 600,
+        reduction_factor: 5000,
+        adaptive_fee_control_factor: 4000,
+        max_volatility_accumulator: 350_000,
+        tick_group_size: TS,
+        major_swap_threshold_ticks: TS,
+    };
+    b.set(k(0xC2, 3), pid, 10_000_000, ser(&sib, AdaptiveFeeTier::LEN));
     b.set(k(0xC6, 1), anchor_spl::token::ID, 10_000_000, crate::fixture::mint_data(false, 6, None, 0));
     for r in ["fee_authority", "collect_protocol_fees_authority", "reward_emissions_super_authority", "reward_authority", "delegated_fee_authority", "initialize_pool_authority", "config_extension_authority", "token_badge_authority", "authority"] {
         b.set(role(r), crate::svm::system_id(), 1_000_000, vec![]);
@@ -263,7 +282,26 @@ fn eval_bool(b: &Bank, slots: &BTreeMap<String, Pubkey>, expr: &str) -> Option<b
             Some(t.fee_tier_index == w.fee_tier_index())
         }
         "is_admin_key(authority.key)" => Some(::whirlpool::auth::admin::is_admin_key(slots.get("authority")?)),
-        _ => None,
+        _ => {
+            // `<slot>.<field> == <slot>.<field>` over the fields a tier / pool comparison can use
+            let (l, r) = expr.split_once(" == ")?;
+            let val = |e: &str| -> Option<Vec<u8>> {
+                let (slot, field) = e.trim().split_once('.')?;
+                let key = slots.get(slot)?;
+                match (slot, field) {
+                    ("adaptive_fee_tier", "fee_tier_index") => de::<AdaptiveFeeTier>(b, key).map(|t| (t.fee_tier_index as u64).to_le_bytes().to_vec()),
+                    ("adaptive_fee_tier", "tick_spacing") => de::<AdaptiveFeeTier>(b, key).map(|t| (t.tick_spacing as u64).to_le_bytes().to_vec()),
+                    ("adaptive_fee_tier", "whirlpools_config") => de::<AdaptiveFeeTier>(b, key).map(|t| t.whirlpools_config.to_bytes().to_vec()),
+                    ("fee_tier", "tick_spacing") => de::<FeeTier>(b, key).map(|t| (t.tick_spacing as u64).to_le_bytes().to_vec()),
+                    ("fee_tier", "whirlpools_config") => de::<FeeTier>(b, key).map(|t| t.whirlpools_config.to_bytes().to_vec()),
+                    ("whirlpool", "fee_tier_index()") => de::<Whirlpool>(b, key).map(|w| (w.fee_tier_index() as u64).to_le_bytes().to_vec()),
+                    ("whirlpool", "tick_spacing") => de::<Whirlpool>(b, key).map(|w| (w.tick_spacing as u64).to_le_bytes().to_vec()),
+                    ("whirlpool", "whirlpools_config") => de::<Whirlpool>(b, key).map(|w| w.whirlpools_config.to_bytes().to_vec()),
+                    _ => None,
+                }
+            };
+            Some(val(l)? == val(r)?)
+        }
     }
 }
 
@@ -333,7 +371,7 @@ impl Family for XAdm {
     }
     fn gen(&self, r: &mut Rng, _idx: u64) -> String {
         let name = r.pick(SPECS);
-        let variation = r.pick(&[0u64, 0, 1, 2, 3, 4, 5]);
+        let variation = r.pick(&[0u64, 0, 1, 2, 3, 4, 5, 6]);
         let val = match r.below(4) {
             0 => r.pick(&[0u64, 1, 2, 3, 2499, 2500, 2501, 59999, 60000, 60001, 65535]),
             1 => r.below(4),
@@ -429,6 +467,13 @@ pub fn expand(line: &str) -> Option<(String, Box<dyn FnOnce(&mut Ctx) -> String>
                 slots.insert(auth_slot.clone(), role(other));
             }
         }
+        6 => {
+            // a sibling tier of the same config and spacing, with ITS authority signing; without a tier slot: a stranger
+            if slots.contains_key("adaptive_fee_tier") && slots.contains_key("whirlpool") {
+                slots.insert("adaptive_fee_tier".to_string(), k(0xC2, 3));
+            }
+            slots.insert(auth_slot.clone(), stranger());
+        }
         4 => v = out_val,
         5 => {
             // the account that receives the change belongs to the other config
@@ -510,6 +555,7 @@ pub fn expand(line: &str) -> Option<(String, Box<dyn FnOnce(&mut Ctx) -> String>
                             2 => "a stranger signed in place of the authority",
                             3 => "the authority of another config / another role signed",
                             4 => "the value is out of bounds",
+                            6 => "a sibling adaptive fee tier (same config and spacing, another index) was passed with ITS authority signing / a stranger signed",
                             _ => "the account to change belongs to another config",
                         }
                     ));
